@@ -22,3 +22,18 @@ pub open spec fn raised_with(o: &Vm, n: &Vm, sig: ExecutionSignal, class: ClassR
   &&& sig == ExecutionSignal::RuntimeError
   &&& n.raised@ == Some(class)
 }
+
+// ---- channel ops (C07): each execution of a send/receive instruction either COMPLETES or RETRIES ---------------
+pub open spec fn is_chan(v: Value) -> bool { v_is_obj(v) && o_kind(v_obj(v)) == ObjectKind::Channel }
+pub open spec fn chan_of(v: Value) -> ChanRef { o_chan(v_obj(v)) }
+
+/// waiters that left a wait structure during this execution: the one the channel handed back, else the first of
+/// the fiber's pool.  C07/C08: every one of them must reach the run queue (none is forgotten), and no other does
+pub open spec fn woken(o: &Vm, n: &Vm, from_channel: Option<WaiterRef>) -> bool {
+  match from_channel {
+    Some(w) => n.queued@ == o.queued@.push(w) && n.fiber.pool@ == o.fiber.pool@,
+    None => if o.fiber.pool@.len() > 0 {
+        n.queued@ == o.queued@.push(o.fiber.pool@[0]) && n.fiber.pool@ == o.fiber.pool@.subrange(1, o.fiber.pool@.len() as int)
+      } else { n.queued@ == o.queued@ && n.fiber.pool@ == o.fiber.pool@ },
+  }
+}
